@@ -17,6 +17,7 @@ import (
 	"runtime/metrics"
 	"sort"
 	"strings"
+	"sync"
 	"sync/atomic"
 	"syscall"
 	"time"
@@ -500,3 +501,49 @@ func (c *Ctx) finish() {
 
 // Hex renders bytes for witnesses.
 func Hex(b []byte) string { return fmt.Sprintf("%x", b) }
+
+// Concurrent runs f from g goroutines at once, n calls each, every goroutine with a PRNG of its own
+// (derived from r, so the inputs are a fixed list; the interleaving is not). f builds its own input, calls
+// the library and returns "" when the result is the expected one, or a description of the mismatch. The
+// library functions exercised this way are functions of their arguments: what another goroutine is doing
+// at the same time must not matter. A mismatch is reported under "concurrent:<name>".
+func (c *Ctx) Concurrent(name string, g, n int, r *gen.Rand, f func(q *gen.Rand) string) {
+	prev := runtime.GOMAXPROCS(4)
+	defer runtime.GOMAXPROCS(prev)
+	seeds := make([]uint64, g)
+	for i := range seeds {
+		seeds[i] = r.Uint64()
+	}
+	var mu sync.Mutex
+	var bad []string
+	var wg sync.WaitGroup
+	for i := 0; i < g; i++ {
+		wg.Add(1)
+		go func(q *gen.Rand) {
+			defer wg.Done()
+			defer func() {
+				if p := recover(); p != nil {
+					mu.Lock()
+					bad = append(bad, fmt.Sprintf("panic: %v", p))
+					mu.Unlock()
+				}
+			}()
+			for k := 0; k < n; k++ {
+				if s := f(q); s != "" {
+					mu.Lock()
+					if len(bad) < 3 {
+						bad = append(bad, s)
+					}
+					mu.Unlock()
+				}
+			}
+		}(gen.New(seeds[i], uint64(i), 0xc0c0))
+	}
+	wg.Wait()
+	c.Eval(g * n)
+	c.CountN("concurrent.calls", g*n)
+	if len(bad) > 0 {
+		c.Fail("concurrent:"+name, fmt.Sprintf("with %d goroutines calling %s on inputs of their own at the same time: %s", g, name, bad[0]),
+			map[string]interface{}{"mismatches": bad, "note": "the inputs are a fixed list, the interleaving is not reproducible; the sequential streams hold for inputs of the same kind"})
+	}
+}
